@@ -54,13 +54,15 @@ func (rn *runner) do(sc scenario, tie *lib.Tie) {
 		ncalls += len(res.pre.calls)
 	}
 	nontrivial := ncalls > 1 || len(res.coll) > 0
-	key := fmt.Sprintf("%s|%d|%v|%s|%v|%v|%v|%v|%d|%d|%s|%v", sc.RPC, len(sc.IDs), sc.Sizes, sc.Token, sc.Delete, sc.Mask, sc.Ops, sc.Warm, sc.Passes, sc.NInit, sc.Icpt, sc.Inflight)
+	key := fmt.Sprintf("%s|%d|%v|%s|%v|%v|%v|%v|%d|%d|%s|%v", sc.RPC, len(sc.IDs), sc.Sizes, sc.Token, sc.Delete, sc.Mask, sc.Ops, sc.Warm, sc.Passes, sc.NInit, sc.Icpt, inflightKey(sc.Inflight))
 	if sc.Icpt != "" {
 		key += "|" + strings.Join(sc.IDs, "\x00")
 		tie.Count("interceptor:" + sc.Icpt)
 	}
 	if sc.Inflight != nil {
-		if sc.Inflight.Accept {
+		if sc.Inflight.Op != nil {
+			tie.Count("inflight-hooked:" + sc.Inflight.Op.Kind + "@" + sc.Inflight.Point + ":" + res.inflight)
+		} else if sc.Inflight.Accept {
 			tie.Count("inflight-accepting:" + sc.Inflight.Kind + ":" + res.inflight)
 		} else {
 			tie.Count("inflight:" + sc.Inflight.Kind + ":" + res.inflight)
@@ -144,6 +146,14 @@ func (rn *runner) do(sc scenario, tie *lib.Tie) {
 	}
 }
 
+func inflightKey(w *guardedWrite) string {
+	if w == nil {
+		return ""
+	}
+	b, _ := json.Marshal(w)
+	return string(b)
+}
+
 func (rn *runner) flush() {
 	if rn.drv == nil || len(rn.lines) == 0 {
 		return
@@ -174,12 +184,12 @@ func main() {
 	res := lib.NewResult("C15", f)
 	rn := &runner{f: f}
 	rn.small = res.Tie("paging-small-exhaustive", "K2",
-		"every collection over the id pool {a,ab,b} (waste: 0..3 records), built through the creation API and as initial records, x page size {-2,-1,0,1,2,3} x starting token {empty, last key in {'',a,aa,ab,b,c}, undecodable text, undecodable bytes} (waste: {empty,0..4,-1,text,overflow}) on each of the seven RPCs, with and without a read mask hiding the key, chain followed to its end; plus every sequence of <= 2 store operations over the full alphabet (ids a, b, empty; generated ids; parent AddChild/AddChildTrait; Update* with create-if-absent, with update masks naming / leaving out the key field; publication updates with the id in the message, without it, and with a FOREIGN id; deletes with and without allow-missing; the trait servers' own Create/Update/Delete/AcknowledgePublication/Dispense RPCs) on a collection {a}, then two passes of one-item and default-size pages; plus every non-empty collection over 5 long / odd ids (35, 35, 304, 40 bytes; control, base64 and URL characters) through every creation route (initial records, creation API, create-if-absent updates, AddChild/AddChildTrait), one- and two-item pages from the start and from a token; plus models built with resource.WithIDInterceptor (ASCII lower / upper casing): every non-empty collection over {a, B, Ab} (storage-id order differs from spelling order) through the creation API and as (normalised) initial records x page size {1,2,0} x tokens for every spelling, and every sequence of <= 2 store ops over the spellings {a, B} on a collection {A}; plus a REFUSED write (Update* of an existing / absent id with and without create-if-absent, Delete*, waste AddWasteRecord) parked in its WithExpectedCheck callback during the unpaged listing and every List call of two passes; every construction step, op outcome, the listing (key fields in Collection.List order vs rlisting) and every List call compared with the Lean model; distinct = (rpc, |ids|, size, decoded token, key visible) / (rpc, op kind and options, outcome)")
+		"every collection over the id pool {a,ab,b} (waste: 0..3 records), built through the creation API and as initial records, x page size {-2,-1,0,1,2,3} x starting token {empty, last key in {'',a,aa,ab,b,c}, undecodable text, undecodable bytes} (waste: {empty,0..4,-1,text,overflow}) on each of the seven RPCs, with and without a read mask hiding the key, chain followed to its end; plus every sequence of <= 2 store operations over the full alphabet (ids a, b, empty; generated ids; parent AddChild/AddChildTrait; Update* with create-if-absent, with update masks naming / leaving out the key field / without any path; publication updates with the id in the message, without it, and with a FOREIGN id; deletes with and without allow-missing; the trait servers' own Create/Update/Delete/AcknowledgePublication/Dispense RPCs) on a collection {a}, then two passes of one-item and default-size pages; plus every non-empty collection over 5 long / odd ids (35, 35, 304, 40 bytes; control, base64 and URL characters) through every creation route (initial records, creation API, create-if-absent updates, AddChild/AddChildTrait), one- and two-item pages from the start and from a token; plus models built with resource.WithIDInterceptor (ASCII lower / upper casing): every non-empty collection over {a, B, Ab} (storage-id order differs from spelling order) through the creation API and as (normalised) initial records x page size {1,2,0} x tokens for every spelling, and every sequence of <= 2 store ops over the spellings {a, B} on a collection {A}; plus a REFUSED write (Update* of an existing / absent id with and without create-if-absent, Delete*, waste AddWasteRecord) parked in its WithExpectedCheck callback during the unpaged listing and every List call of two passes; plus the same writes ACCEPTED (the callback parks, then returns nil): unpaged listing + one chain while the write is parked (judged against the contents BEFORE it), then the write completes and the listing + two passes are taken again (judged against the contents AFTER it); plus EVERY store op of the alphabet over {a, c} (update masks without paths included; the APIs without write options - parent AddChild/AddChildTrait/RemoveChildTrait, Create*, the servers' RPCs - too) parked at a yield point of the resource layer (gau.beforeLock / gau.afterRead / coll.delete.afterRead: after the verdict, before the write lock) on {a} and {a,b}, listed and paged while parked and again after it was let through; every construction step, op outcome, the listing (key fields in Collection.List order vs rlisting) and every List call compared with the Lean model; distinct = (rpc, |ids|, size, decoded token, key visible) / (rpc, op kind and options, outcome)")
 	rn.small.Exhaustive = true
 	rn.tie = res.Tie("paging-scenarios", "K1",
-		"structured random paging scenarios from one PRNG: collection sizes 0-60/49,50,51/999-1001, page sizes {-5..0,1,2,3,7,50,1000,5000,random} fixed or varying per page, prefix-related and multi-byte ids, hostile tokens (bit flips, truncation, base64 of random bytes, tokens for deleted/absent keys, other oneof member, unknown fields, repeated field, other listers' tokens, URL/raw alphabets, embedded newlines, out-of-range indices), long ids (to ~600 bytes, shared long prefixes) and ids with control/base64/URL characters, each collection built through a random split of initial records and creation API, collections built by random histories of the models' creation/update/deletion APIs and the servers' CRUD RPCs (create-if-absent, update masks, foreign ids, allow-missing), 2-3 passes over one model, arbitrary warm-up List calls before the chain, a quarter of these with a refused write in flight throughout; models with a case-mapping id interceptor and mixed-case ids (distinct under the interceptor), histories over re-spellings of them, tokens in other spellings; every op outcome, listing and List call compared with the Lean model; distinct = (rpc, |ids|, size, decoded token, key visible)")
+		"structured random paging scenarios from one PRNG: collection sizes 0-60/49,50,51/999-1001, page sizes {-5..0,1,2,3,7,50,1000,5000,random} fixed or varying per page, prefix-related and multi-byte ids, hostile tokens (bit flips, truncation, base64 of random bytes, tokens for deleted/absent keys, other oneof member, unknown fields, repeated field, other listers' tokens, URL/raw alphabets, embedded newlines, out-of-range indices), long ids (to ~600 bytes, shared long prefixes) and ids with control/base64/URL characters, each collection built through a random split of initial records and creation API, collections built by random histories of the models' creation/update/deletion APIs and the servers' CRUD RPCs (create-if-absent, update masks incl. non-nil masks without paths, foreign ids, allow-missing), 2-3 passes over one model, arbitrary warm-up List calls before the chain, half of these with a write in flight (refused throughout; or accepted / any store op parked at a yield point: one chain while it is parked, all passes after it completed); models with a case-mapping id interceptor and mixed-case ids (distinct under the interceptor), histories over re-spellings of them, tokens in other spellings; every op outcome, listing and List call compared with the Lean model; distinct = (rpc, |ids|, size, decoded token, key visible)")
 	rn.mon = res.Monitor("paging-property",
-		"per scenario, oracle = ids sorted bytewise (waste: reverse insertion order) filtered by the harness's own decoding of the starting token: the collection expected after the store ops comes from the harness's own set oracle (with an id interceptor: a map from intercepted id to the key field as last written; the unpaged listing must be those fields in intercepted-id order, the pages those fields in bytewise order); a refused write in flight during the List calls must end refused and leave the listing as it was; no listed key is empty; unpaged listing = oracle; no panic; negative size and malformed token answered by an error; otherwise no error, |page| <= min(size or 50, 1000), total_size = |items| on every page (the trailing empty one included), empty token reached within |items|+1 pages, concatenation = listing, on EVERY pass over the same model; the listing is unchanged after all List calls; non-trivial = non-empty collection or more than one call")
+		"per scenario, oracle = ids sorted bytewise (waste: reverse insertion order) filtered by the harness's own decoding of the starting token: the collection expected after the store ops comes from the harness's own set oracle (with an id interceptor: a map from intercepted id to the key field as last written; the unpaged listing must be those fields in intercepted-id order, the pages those fields in bytewise order); a refused write in flight during the List calls must end refused and leave the listing as it was; an accepted write parked before its commit (in its expected check or at a yield point) is invisible to the listing and the chain taken meanwhile, completes when released, and the listing and every pass taken afterwards show exactly the contents after it; no listed key is empty; unpaged listing = oracle; no panic; negative size and malformed token answered by an error; otherwise no error, |page| <= min(size or 50, 1000), total_size = |items| on every page (the trailing empty one included), empty token reached within |items|+1 pages, concatenation = listing, on EVERY pass over the same model; the listing is unchanged after all List calls; non-trivial = non-empty collection or more than one call")
 	codecTie := res.Tie("token-codec", "K1",
 		"token encode/decode identity on the six key-token RPCs: a one-item collection whose key is an ARBITRARY byte string (22 edge cases: NUL, 1-4 byte runes, BOM, overlong forms, surrogates, > U+10FFFF, truncated sequences; random runes; random bytes); page 1 mints a token from the key, the harness decodes it with its own base64(std)+proto reader, call 2 uses it (keys of 1-8 bytes and of 21-320 bytes; the item comes from the creation API or is an initial record; the monitor requires that the server accepts the token it has just issued). Model: the key is a String (valid UTF-8) and the token carries it unchanged, or the bytes are not a String ('invalid': proto.Marshal refuses the token, the RPC answers Unknown); distinct = (rpc, bytes)")
 	discTie := res.Tie("lister-discovery", "K3",
@@ -208,6 +218,7 @@ func main() {
 	rn.smallLong()
 	rn.smallIcpt()
 	rn.smallInflight()
+	rn.smallHooked()
 	rn.flush()
 	rn.rng = rng
 	rn.random(rng)
@@ -507,6 +518,51 @@ func (rn *runner) smallInflight() {
 				for _, s := range []int32{1, 0} {
 					rn.do(scenario{RPC: rp.Name, IDs: ids, Sizes: []int32{s}, Passes: 2, Inflight: &a, Class: "small-inflight-accepted"}, rn.small)
 				}
+				// a first page meanwhile (warm-up call), then chains that START from a token
+				rn.do(scenario{RPC: rp.Name, IDs: ids, Sizes: []int32{1}, Token: encodeKeyToken("a"), Warm: []warmCall{{Size: 0}}, Passes: 2, Inflight: &a, Class: "small-inflight-accepted"}, rn.small)
+			}
+		}
+	}
+}
+
+// hookPoint: where a store op is parked - after its verdict, before it takes the write lock.
+func hookPoint(op storeOp, alt bool) string {
+	switch {
+	case op.Kind == "delete":
+		return "coll.delete.afterRead"
+	case alt:
+		return "gau.afterRead"
+	}
+	return "gau.beforeLock"
+}
+
+// smallHooked: every store op of the model's alphabet over {a, c} (the APIs without write options and the trait
+// servers' own RPCs included) parked at a yield point of the resource layer before it commits, on the collections
+// {a} and {a, b}: the listing and a chain of List calls while it is parked (contents before the op), then the op is
+// let through and the listing and two passes are taken again (contents after it). waste: AddWasteRecord.
+func (rn *runner) smallHooked() {
+	for _, rp := range rpcs() {
+		if rp.Variant == "waste" {
+			for n := 0; n <= 2; n++ {
+				for _, s := range []int32{1, 0} {
+					rn.do(scenario{RPC: rp.Name, IDs: []string{"r0", "r1"}[:n], Sizes: []int32{s}, Passes: 2,
+						Inflight: &guardedWrite{Kind: "hooked", Op: &storeOp{Kind: "add", ID: "added-meanwhile"}, Point: "gau.beforeLock"}, Class: "small-inflight-hooked"}, rn.small)
+					rn.do(scenario{RPC: rp.Name, IDs: []string{"r0", "r1"}[:n], Sizes: []int32{s}, Token: "1", Warm: []warmCall{{Size: 0}}, Passes: 2,
+						Inflight: &guardedWrite{Kind: "hooked", Op: &storeOp{Kind: "add", ID: "added-meanwhile"}, Point: "gau.afterRead"}, Class: "small-inflight-hooked"}, rn.small)
+				}
+			}
+			continue
+		}
+		for _, ids := range [][]string{{"a"}, {"a", "b"}} {
+			for i, op := range opAlphabet(rp, []string{"a", "c"}, []string{"b"}) {
+				op := op
+				for _, s := range []int32{1, 0} {
+					rn.do(scenario{RPC: rp.Name, IDs: ids, Sizes: []int32{s}, Passes: 2,
+						Inflight: &guardedWrite{Kind: "hooked", Op: &op, Point: hookPoint(op, (i+int(s))%3 == 0)}, Class: "small-inflight-hooked"}, rn.small)
+				}
+				// a first page meanwhile (warm-up call), then chains that START from a token
+				rn.do(scenario{RPC: rp.Name, IDs: ids, Sizes: []int32{1}, Token: encodeKeyToken("a"), Warm: []warmCall{{Size: 0}}, Passes: 2,
+					Inflight: &guardedWrite{Kind: "hooked", Op: &op, Point: hookPoint(op, i%3 == 1)}, Class: "small-inflight-hooked"}, rn.small)
 			}
 		}
 	}
@@ -698,8 +754,8 @@ func (rn *runner) random(r *rand.Rand) {
 			sc.Warm = append(sc.Warm, w)
 			sc.Class = "passes+warm-up"
 		}
-		if r.Intn(4) == 0 {
-			// a refused write in flight during all of it
+		if r.Intn(2) == 0 {
+			// a write in flight during all of it (refused, accepted, or any store op parked at a yield point)
 			w := guardedWrite{Kind: "delete", ID: genID(r)}
 			if n > 0 && r.Intn(2) == 0 {
 				w.ID = ids[r.Intn(n)]
@@ -712,6 +768,28 @@ func (rn *runner) random(r *rand.Rand) {
 			}
 			sc.Inflight = &w
 			sc.Class += "+inflight"
+			if r.Intn(2) == 0 {
+				// the same write ACCEPTED: listed while it is parked, paged again after it completed
+				w.Accept = true
+				sc.Class += "-accepted"
+				if rp.Variant == "waste" {
+					// records are told apart by their id: the one added meanwhile gets an id no other record has
+					for fresh := false; !fresh; {
+						w.ID = "meanwhile-" + genID(r)
+						fresh = true
+						for _, id := range ids {
+							fresh = fresh && id != w.ID
+						}
+					}
+				}
+			}
+			if alpha := opAlphabet(rp, append(genIDs(r, 2), ids[:min(n, 3)]...), genIDs(r, 1)); alpha != nil && r.Intn(3) == 0 {
+				// any store op of the model, parked at a yield point before it commits
+				op := alpha[r.Intn(len(alpha))]
+				sc.Inflight = &guardedWrite{Kind: "hooked", Op: &op, Point: hookPoint(op, r.Intn(3) == 0)}
+				sc.Mask = keyMask(r, rp) // store ops create items whose witness field is not their id
+				sc.Class = "passes+inflight-hooked"
+			}
 		}
 		rn.do(sc, rn.tie)
 	}
@@ -794,6 +872,13 @@ func replay(f lib.Flags) int {
 		fmt.Printf("op %d: %s %q alt=%v -> %s\n", i, sc.Ops[i].Kind, sc.Ops[i].ID, sc.Ops[i].Alt, o)
 	}
 	fmt.Printf("listing: %q\n", res.full)
+	if res.pre != nil {
+		fmt.Printf("listing while the write is in flight: %q\n", res.pre.full)
+		for i, c := range res.pre.calls {
+			fmt.Printf("call %d while the write is in flight: %s page_size=%d page_token=%q -> %s %s\n", i, sc.RPC, c.Size, c.Token, c.Out, c.Panic)
+		}
+		fmt.Printf("in-flight write: %s -> %s\n", res.inflight, res.inflightOp)
+	}
 	for i, c := range res.warm {
 		fmt.Printf("warm-up call %d: %s page_size=%d page_token=%q -> %s %s\n", i, sc.RPC, c.Size, c.Token, c.Out, c.Panic)
 	}
